@@ -61,6 +61,33 @@ def requests(ctx, per_mode, special_per_mode):
             out.append((ub3, vals, hkl, wl, "special"))
     if special_per_mode:
         out += PL.aligned_requests(ctx.rng, special_per_mode * 2)
+        out += backscatter_requests(ctx.rng, special_per_mode * 300)
+    return out
+
+
+def backscatter_requests(rng, n):
+    """reflections at the edge of the Ewald sphere: a physical position with 2theta = 180 - eps fixes hkl and the constraint values; the
+    request is then made at a wavelength a relative 1e-9 ... 5e-4 above or below the one of that position (beyond the limit 2d the only
+    correct answer is a DiffcalcException; below it whatever is returned must diffract at hkl)"""
+    out = []
+    modes = PL.modes()
+    for _ in range(n):
+        tr = rng.choice(modes)
+        ub, kind = PL.rand_ub(rng)
+        eps = rng.choice([1e-3, 1e-2, 0.05, 0.3])
+        P0 = [rng.uniform(-179, 179) for _ in range(6)]
+        if rng.random() < 0.5:
+            P0[1], P0[2] = 180.0 - eps, rng.choice([0.0, 0.0, 180.0 - 2 * eps])
+            if P0[2] != 0.0:
+                P0[1] = eps
+        else:
+            P0[1], P0[2] = rng.choice([0.0, eps]), 180.0 - eps
+        r = PL.construct_request(rng, ub, tr, P0=P0)
+        if r is None:
+            continue
+        ub2, vals, hkl, P = r
+        t = (10.0 ** rng.uniform(-7.5, -3.3)) * rng.choice((1.0, 1.0, 1.0, -1.0))
+        out.append((ub2, vals, hkl, 1.0 * (1.0 + t), "backscatter:" + kind))
     return out
 
 
